@@ -337,6 +337,27 @@ def e1_cases(tier):
                             out.append(dict(part="E1", solver=name, K=K, Nr=list(Nr), Nt=list(Nt), Ns=Ns,
                                             best=None, init=init, P=P, noise=noise, s=s, hscale=hs,
                                             iters=iters))
+    # initialize_with='fix': precoders set manually first, or kept from an earlier solve;
+    # the REQUESTED power (also: no power argument) must be the one in force afterwards
+    for name in ITERATIVE:
+        for (K, Nr, Nt, Ns) in cfgs:
+            for init in ("fix_manual", "fix_after_solve"):
+                for P in (1e-6, 1.0, 1e3, list(PMIX[:K]), list(PVEC[:K]), None):
+                    for (s, hs) in (mem if thorough else mem[:1]):
+                        out.append(dict(part="E1", solver=name, K=K, Nr=list(Nr), Nt=list(Nt), Ns=Ns,
+                                        best=None, init=init, P=P,
+                                        noise=None if name in ITERATIVE[:2] else 0.05, s=s, hscale=hs,
+                                        iters=[2]))
+    return out
+
+
+def fix_precoders(case):
+    K, Nt = case["K"], case["Nt"]
+    Ns = ns_vec(case["Ns"], K)
+    out = []
+    for k in range(K):
+        a = families.generic(case["s"] + 90, (Nt[k], Ns[k]), tag=50 + k)
+        out.append(a / np.linalg.norm(a))
     return out
 
 
@@ -495,10 +516,19 @@ def run_e1_case(chk, case):
             if noise != case["noise"]:
                 chk.count("solves_with_relative_noise_above_snr_cap")
             m, H = make_channel(case["s"], K, Nr, Nt, noise, hs)
-            sv = make_solver(name, m, case["init"], n, case["best"])
+            fix = str(case["init"]).startswith("fix")
+            sv = make_solver(name, m, None if fix else case["init"], n, case["best"])
             if name != "ClosedFormIASolver":
                 own_rng(sv, 1000 + case["s"])
             Ns_arg = case["Ns"] if isinstance(case["Ns"], int) else list(case["Ns"])
+            if fix:
+                # the precoders exist before the call: set by hand, or left by an earlier solve with
+                # ANOTHER power (1.5); then initialize_with='fix' and solve with the requested one
+                if case["init"] == "fix_manual":
+                    sv.set_precoders(F=obj_array(fix_precoders(case)))
+                else:
+                    sv.solve(Ns_arg, 1.5)
+                sv.initialize_with = "fix"
             cost_only = (n == 0)
             if not cost_only:
                 chk.count("eval_solves")
@@ -520,13 +550,13 @@ def run_e1_case(chk, case):
                 chk.nontriv(key)
                 if name != "ClosedFormIASolver":
                     chk.outcome("iterations_run", (n, int(ret)))
-                    if ret != sv.runned_iterations or not (1 <= ret <= n):
+                    if ret != sv.runned_iterations or not (1 <= ret <= n or fix):
                         chk.fail(("solve", name, "returned_iterations"), dict(case, n=n), observed=ret,
                                  expected="1..%d" % n)
                 FF = check_solution(chk, sv, H, case, n)
             # --- cost bookkeeping
             equal_p = len(set(p_vec(case["P"], K).tolist())) == 1
-            if (name in ITERATIVE[:2] and equal_p and not case["noise"] and FF is not None
+            if (name in ITERATIVE[:2] and equal_p and not case["noise"] and FF is not None and not fix
                     and [f.shape[1] for f in FF] == req):
                 L, sc = leakage(FF, blocks(H, Nr, Nt), K, req)
                 costs.append((n, L, float(np.real(sv.get_cost())), sc))
@@ -590,12 +620,29 @@ EVENTS_QUICK = ([("read", r) for r in READS] +
                 [("P", 1e-10), ("P", 1e6), ("P", "vec"), ("P", None),
                  ("setF", "array"), ("setF", "list"), ("setFF_P", "array"), ("setFF_P", "mutate_after"),
                  ("setWH", "array"), ("setW", "array"),
-                 ("randF", 5), ("solve", 0)] + CHAN_EVENTS_QUICK)
-EVENTS = EVENTS_QUICK + [("P", 2.0), ("setWH", "list"), ("chan", "pl", None)]      # thorough
+                 ("randF", 5), ("solve", 0), ("solve", "P2"), ("initwith", "fix")] + CHAN_EVENTS_QUICK)
+EVENTS_QUICK.remove(("read", "W_H"))      # (reading full_W_H populates the W_H cache as well)
+EVENTS = EVENTS_QUICK + [("read", "W_H"), ("P", 2.0), ("setWH", "list"), ("chan", "pl", None),
+                         ("solve", "noP")]      # thorough
+PV_SOLVE2 = (3.0, 1e-3, 40.0)
 
 
-def events(tier):
-    return EVENTS if tier == "thorough" else EVENTS_QUICK
+def events(tier, solver=None):
+    evs = EVENTS if tier == "thorough" else EVENTS_QUICK
+    if solver == "ClosedFormIASolver":
+        evs = [e for e in evs if e[0] != "initwith"]
+    return evs
+
+
+def solve_power(base, variant):
+    """the power argument of the solve event variants: 0 -> the base power, 'P2' -> another
+    vector, 'noP' -> solve is called without a power (documented: 1 for every user)"""
+    if variant == "P2":
+        return list(PV_SOLVE2[:base["K"]])
+    if variant == "noP":
+        return None
+    P0 = base["P0"]
+    return list(P0) if isinstance(P0, (list, tuple)) else P0
 
 
 PLM = ((0.5, 1e-2, 1e-1), (1e-3, 0.2, 1e-2), (1e-1, 1e-3, 1.0))      # linear path loss, decades apart
@@ -669,6 +716,8 @@ def evkind(ev):
         return "solve"
     if t == "chan":
         return "channel:" + str(ev[1])
+    if t == "initwith":
+        return "initialize_with="
     return "read"
 
 
@@ -694,16 +743,18 @@ PV_EVENT = (1e-6, 1e3, 1.0)
 PV_SETFF = (1e-8, 3.0, 1e4)
 
 
-def e3_solve(sv, base):
+def e3_solve(sv, base, variant=0):
     if base["solver"] != "ClosedFormIASolver":
         own_rng(sv, 77 + base["s"])
-    P0 = base["P0"]
-    Parg = list(P0) if isinstance(P0, (list, tuple)) else P0
+    Parg = solve_power(base, variant)
     snap = chan_snapshot(sv._multiUserChannel)
-    sv.solve(base["Ns"], Parg)
+    if variant == "noP":
+        sv.solve(base["Ns"])
+    else:
+        sv.solve(base["Ns"], Parg)
     chan_unchanged(sv._multiUserChannel, snap, "solve modifies the channel object")
     if isinstance(Parg, list):
-        _unchanged("solve(P)", [Parg], [list(P0)])
+        _unchanged("solve(P)", [Parg], [solve_power(base, variant)])
 
 
 def apply_event(sv, ev, base):
@@ -754,7 +805,9 @@ def apply_event(sv, ev, base):
         own_rng(sv, 500 + ev[1] + base["s"])
         sv.randomizeF(base["Ns"] if isinstance(base["Ns"], int) else list(base["Ns"]))
     elif t == "solve":
-        e3_solve(sv, base)
+        e3_solve(sv, base, ev[1])
+    elif t == "initwith":
+        sv.initialize_with = ev[1]
     else:
         raise ValueError("unknown event %r" % (ev,))
 
@@ -769,7 +822,8 @@ class E3Job:
         self._fresh = {}
         self._rnd = None
         self._heff = {}
-        self.events = events(chk.tier)
+        self.events = events(chk.tier, base["solver"])
+        self._err_done = set()
 
     # ---- real object ---------------------------------------------------
     def new_solver(self, chan=()):
@@ -814,26 +868,31 @@ class E3Job:
         return st
 
     # ---- reference model -------------------------------------------------
-    def fresh(self, chan=()):
+    def fresh(self, chan=(), variant=0, fixF=None):
         """what `solve` / `randomizeF` produce on a fresh object bound to a channel in the
-        state `chan` (memoised)"""
-        if chan not in self._fresh:
+        state `chan` (memoised); with initialize_with='fix' the solve continues from `fixF`"""
+        key = (chan, variant, None if fixF is None else sdigest(fixF, 9))
+        if key not in self._fresh:
             K = self.K
             sv = self.new_solver(chan)
-            e3_solve(sv, self.base)
+            if fixF is not None:
+                sv.set_precoders(F=obj_array([np.array(x) for x in fixF]))
+                sv.initialize_with = "fix"
+            e3_solve(sv, self.base, variant)
             sol = dict(F=[np.array(x) for x in as_list(sv.F, K)],
                        WH=[np.array(x) for x in as_list(sv.W_H, K)],
                        P=np.array(sv.P, dtype=float),
                        FFx=[np.array(x) for x in as_list(sv.full_F, K)]
                        if self.base["solver"] == "MMSEIASolver" else None,
-                       FFalt=None, Flist=False, chan=chan, dirty=False, alias=None)
+                       FFalt=None, Flist=False, chan=chan, dirty=False, alias=None,
+                       init=None, solved=variant)
             if self._rnd is None:
                 sv2 = self.new_solver()
                 own_rng(sv2, 500 + 5 + self.base["s"])
                 sv2.randomizeF(self.base["Ns"])
                 self._rnd = [np.array(x) for x in as_list(sv2.F, K)]
-            self._fresh[chan] = (sol, self._rnd)
-        return self._fresh[chan]
+            self._fresh[key] = (sol, self._rnd)
+        return self._fresh[key]
 
     def model(self, hist):
         sol, rnd = self.fresh()
@@ -845,6 +904,9 @@ class E3Job:
             if t == "chan":
                 md["chan"] = md["chan"] + (ev,)
                 md["dirty"] = True          # derived receive filters legitimately outdated
+                continue
+            if t == "initwith":
+                md["init"] = ev[1]          # configuration only: nothing is recomputed
                 continue
             if t != "read":
                 md["dirty"] = False         # every solver-side mutator recomputes them on demand
@@ -884,7 +946,9 @@ class E3Job:
                 md["FFx"] = md["FFalt"] = None
                 md["Flist"] = False
             elif t == "solve":
-                md = dict(self.fresh(md["chan"])[0])
+                init = md["init"]
+                md = dict(self.fresh(md["chan"], ev[1], md["F"] if init == "fix" else None)[0])
+                md["init"] = init
         md["FF"] = md["FFx"] if md["FFx"] is not None else [md["F"][k] * math.sqrt(md["P"][k])
                                                             for k in range(K)]
         return md
@@ -938,7 +1002,8 @@ class E3Job:
             b = self.base
             chk.count("eval_e3_post_solve_relation_sets")
             check_solution(chk, sv, Hbig, dict(case, solver=b["solver"], K=K, Nr=b["Nr"], Nt=b["Nt"],
-                                               Ns=b["Ns"], P=b["P0"], init=b["init"]), b["n"])
+                                               Ns=b["Ns"], P=solve_power(b, md["solved"]),
+                                               init=md["init"] or b["init"]), b["n"])
         # ---- read every public view (this populates caches: digest was taken before)
         obs = {}
         for v in ("F", "P", "Ns", "W_H", "W", "full_F", "full_W_H", "full_W"):
@@ -1106,7 +1171,111 @@ class E3Job:
                              observed=as_list(f.full_W_H, K), expected=want)
             except np.linalg.LinAlgError:
                 chk.count("excluded_e3_equivalent_channel_kappa>1e6")
+        # ---- error paths: invalid calls must raise and leave the whole object as it was
+        if st["digest"] not in self._err_done and not bad:
+            self._err_done.add(st["digest"])
+            self.error_paths(sv, case)
         return rec
+
+    def _invalid_calls(self, sv):
+        K, b = self.K, self.base
+        Ns = b["Ns"] if isinstance(b["Ns"], int) else list(b["Ns"])
+        F = payload(b, "W")
+        calls = [
+            ("P=<non-positive scalar>", lambda: setattr(sv, "P", 0.0)),
+            ("P=<non-positive scalar>", lambda: setattr(sv, "P", -1.5)),
+            ("P=<sequence with a non-positive entry>", lambda: setattr(sv, "P", [2.0, 0.0, 1.0][:K])),
+            ("P=<sequence of wrong length>", lambda: setattr(sv, "P", [1.0] * (K + 1))),
+            ("set_precoders()", lambda: sv.set_precoders()),
+            ("set_receive_filters()", lambda: sv.set_receive_filters()),
+            ("set_receive_filters(W=,W_H=)",
+             lambda: sv.set_receive_filters(W=obj_array(F), W_H=obj_array([x.conj().T for x in F]))),
+            ("solve(<Ns of wrong length>)", lambda: sv.solve([1] * (K + 1), 1.0)),
+            ("solve(P<=0)", lambda: sv.solve(Ns, -1.0)),
+            ("randomizeF(P<=0)", lambda: sv.randomizeF(Ns, -1.0)),
+        ]
+        if b["solver"] != "ClosedFormIASolver":
+            calls.append(("initialize_with=<unknown>", lambda: setattr(sv, "initialize_with", "bogus")))
+        return calls
+
+    def error_paths(self, sv, case):
+        chk = self.chk
+        calls = self._invalid_calls(sv)
+
+        def whole():
+            seen = {id(sv._multiUserChannel): 0}
+            return bfs.digest(_scaled(dict(vars(sv)), seen), 9)
+
+        def attrs():
+            seen = {id(sv._multiUserChannel): 0}
+            return {k: bfs.digest(_scaled(v, seen), 9) for k, v in vars(sv).items()}
+
+        NAMES = ("_F", "_full_F", "_W", "_W_H", "_full_W_H", "_full_W", "_P", "_Ns", "_initialize_with",
+                 "_runned_iterations", "max_iterations", "_mu", "_C")
+
+        def fingerprint():
+            # cheap (identity / small values) and only used to ATTRIBUTE a change to one call;
+            # soundness rests on the whole-object digests taken before and after all calls
+            out = {}
+            for nm in NAMES:
+                v = getattr(sv, nm, None)
+                if isinstance(v, np.ndarray) and v.dtype != object and v.size <= 8:
+                    out[nm] = v.tobytes()
+                elif isinstance(v, (int, float, str)) or v is None:
+                    out[nm] = v
+                else:
+                    out[nm] = id(v)
+            return out
+
+        def run(slow):
+            """slow=False: fingerprint after every call, whole digest before/after all calls;
+            slow=True: per-attribute digests around every call (used on a rebuilt object when the
+            whole digest changed although no fingerprint did)"""
+            seen_change = False
+            before = attrs() if slow else fingerprint()
+            for what, call in calls:
+                chk.count("eval_error_path_calls")
+                try:
+                    call()
+                except Exception as e:  # noqa
+                    exc = type(e).__name__
+                else:
+                    chk.fail(("error_path", what, "accepted"), dict(case, invalid_call=what),
+                             observed="no exception", expected="raises and changes nothing")
+                    seen_change = True
+                    before = attrs() if slow else fingerprint()
+                    continue
+                after = attrs() if slow else fingerprint()
+                changed = sorted(k for k in set(before) | set(after) if before.get(k) != after.get(k))
+                if changed:
+                    seen_change = True
+                    chk.fail(("error_path", what, "changes_object"), dict(case, invalid_call=what),
+                             observed="%s raised, but these attributes changed: %s"
+                             % (exc, ", ".join(changed)),
+                             expected="object identical to before the rejected call")
+                    before = after      # the remaining calls are judged against the object as it is now
+            return seen_change
+
+        d0 = whole()
+        snap = chan_snapshot(sv._multiUserChannel)
+        seen_change = run(False)
+        try:
+            chan_unchanged(sv._multiUserChannel, snap, "channel")
+        except InputMutated:
+            chk.fail(("error_path", "<some invalid call>", "changes_channel_object"), case)
+        if not seen_change and whole() != d0:
+            chk.count("error_path_slow_attribution")
+            st2 = self.build(_tuplify(case["history"]))
+            sv = st2["solver"]
+            for v in ("F", "P", "Ns", "W_H", "W", "full_F", "full_W_H", "full_W"):
+                try:
+                    getattr(sv, v)
+                except Exception:  # noqa
+                    pass
+            calls[:] = self._invalid_calls(sv)
+            if not run(True):
+                chk.fail(("error_path", "<some invalid call>", "changes_object"), case,
+                         observed="whole-object digest differs after the rejected calls")
 
     # ---- BFS plumbing ------------------------------------------------------
     def run(self):
